@@ -460,6 +460,21 @@ def eval_add(specs):
         if n != len(got):
             viol.append(({"kind": "len-mismatch", "op": "add", "how": how, "empty_items": empty_op},
                          f"{how}: len({txt}) == {n} but list() has {len(got)} combinations"))
+    # len() after a member of a nested sum has grown: len and list() are asked BEFORE and AFTER `inner + extra` (whether or not the
+    # growth of the inner sum is visible through the outer one, the two must keep agreeing - a remembered length may not go stale)
+    if len(specs) >= 3:
+        try:
+            sw = [build(s) for s in specs]
+            inner_m = sw[1] + sw[2]
+            outer = sw[0] + inner_m
+            before = (len(outer), len(outer.list()))
+            grown = inner_m + build(specs[0])
+            after = (len(outer), len(outer.list()), len(grown), len(grown.list()))
+            if before[0] != before[1] or after[0] != after[1] or after[2] != after[3]:
+                viol.append(({"kind": "len-mismatch", "op": "add", "how": "nested-then-inner-grows", "empty_items": empty_op},
+                             f"a + (b + c) for {txt}: len/list() = {before} before and {after[:2]} after (b + c) + a (the grown inner sum: {after[2:]})"))
+        except Exception as e:  # noqa: BLE001
+            viol.append((_exc(e, op="add", how="nested-then-inner-grows", operand_empty_items=empty_op), f"nested-then-inner-grows: {txt} raised {e!r}"))
     return viol, len(exp) >= 2 and all(exps), f"add:n={len(exp)}", strata
 
 
